@@ -21,7 +21,7 @@ UNITS = [
          requires=[("wf", "wf_segments(path.segments@)")],
          ensures=[
              ("ok", "r is Ok"),
-             ("nodelist", "r matches Ok(v) && (union_free(path.segments@) ==> qnodes(v@) == rfc_query(*path, value))"),
+             ("nodelist", "r matches Ok(v) && (segs_exact(path.segments@, true) ==> qnodes(v@) == rfc_query(*path, value))"),
          ],
          shapes=[("R2v", 1)],
          # Pointer -> QueryRef goes through std's From/Into contract (FromSpecImpl in helpers.rs);
@@ -30,13 +30,13 @@ UNITS = [
     Unit(name="js_path", file=F, fn="js_path", order=72, serves=["C01", "C08"],
          ensures=[
              ("parse_err", "parsed(path@) is None ==> r is Err"),
-             ("nodelist", "parsed(path@) matches Some(q) ==> r matches Ok(v) && (union_free(q.segments@) ==> qnodes(v@) == rfc_query(q, value))"),
+             ("nodelist", "parsed(path@) matches Some(q) ==> r matches Ok(v) && (segs_exact(q.segments@, true) ==> qnodes(v@) == rfc_query(q, value))"),
          ]),
     Unit(name="js_path_vals", file=F, fn="js_path_vals", order=72, serves=["C01"],
          shapes=[("R2vv", 1)],
          ensures=[
              ("parse_err", "parsed(path@) is None ==> r is Err"),
-             ("values", "parsed(path@) matches Some(q) ==> r matches Ok(v) && (union_free(q.segments@) ==> "
+             ("values", "parsed(path@) matches Some(q) ==> r matches Ok(v) && (segs_exact(q.segments@, true) ==> "
                         "v@.len() == rfc_query(q, value).len() && forall|i: int| 0 <= i < v@.len() ==> #[trigger] v@[i] == rfc_query(q, value)[i].inner)"),
          ],
          closures={1: Cl(expect="r.val()", types=["QueryRef<'a, T>"], ret="(o: &'a T)", ensures=[("def", "o == r.0")])}),
@@ -44,7 +44,7 @@ UNITS = [
          shapes=[("R2vv", 1)],
          ensures=[
              ("parse_err", "parsed(path@) is None ==> r is Err"),
-             ("paths", "parsed(path@) matches Some(q) ==> r matches Ok(v) && (union_free(q.segments@) ==> "
+             ("paths", "parsed(path@) matches Some(q) ==> r matches Ok(v) && (segs_exact(q.segments@, true) ==> "
                        "v@.len() == rfc_query(q, value).len() && forall|i: int| 0 <= i < v@.len() ==> (#[trigger] v@[i])@ == rfc_query(q, value)[i].path)"),
          ],
          closures={1: Cl(expect="r.path()", types=["QueryRef<T>"], ret="(o: QueryPath)", ensures=[("def", "o == r.1")])}),
